@@ -93,6 +93,17 @@ fn ptree(p: &Policy<String>) -> String {
     let (_, kids) = pkids(p);
     format!("RNode {} [{}]", plabel(p), kids.iter().map(|k| ptree(k)).collect::<Vec<_>>().join("; "))
 }
+fn pdesc(p: &Policy<String>) -> String {
+    let kids = |v: Vec<&Policy<String>>| v.iter().map(|k| pdesc(k)).collect::<Vec<_>>().join(",");
+    match p {
+        Policy::And(_) => format!("And[{}]", kids(pkids(p).1)),
+        Policy::Or(_) => format!("Or[{}]", kids(pkids(p).1)),
+        Policy::Thresh(t) => format!("Thresh{}[{}]", t.k(), kids(pkids(p).1)),
+        Policy::Key(k) => k.clone(),
+        Policy::Trivial => "1".into(),
+        _ => "0".into(),
+    }
+}
 fn gen_policy(r: &mut Rng, depth: u32, ctr: &mut u32) -> Policy<String> {
     if depth == 0 || r.chance(1, 4) {
         *ctr += 1;
@@ -207,7 +218,7 @@ fn gen_shape(r: &mut Rng, depth: u32) -> Shape {
         b(gen_shape(r, depth - 1), gen_shape(r, depth - 1))
     }
 }
-fn tap_row(s: &Shape) -> String {
+fn tap_row(s: &Shape) -> (String, String) {
     let mut text = String::from("tr(KI,");
     let mut ctr = 0;
     shape_text(s, &mut ctr, &mut text);
@@ -223,7 +234,7 @@ fn tap_row(s: &Shape) -> String {
         Ok(Err(_)) => (0, vec![]),
         Err(_) => (2, vec![]),
     };
-    format!("({}, ({}, [{}]))", shape_coq(s), code, nums(&depths))
+    (format!("({}, ({}, [{}]))", shape_coq(s), code, nums(&depths)), text)
 }
 
 pub fn run(args: &[String]) {
@@ -258,6 +269,7 @@ pub fn run(args: &[String]) {
     ];
     for t in fixed {
         if let Ok(m) = Miniscript::<String, miniscript::Segwitv0>::from_str_insane(t) {
+            eprintln!("ITER {} Miniscript<String,Segwitv0> {}", irow.len(), t);
             irow.push(ms_row(&m));
         }
     }
@@ -267,6 +279,7 @@ pub fn run(args: &[String]) {
         let mut g = crate::ast::Gen::new(&w, seed.wrapping_mul(977) + 9000 + sd, crate::ast::CtxInfo { tap: false, legacy_like: false, n_keys: 6 });
         if let Some(m) = g.gen::<miniscript::Segwitv0>(crate::ast::B::B, 1 + (sd % 5) as u32) {
             if let Ok(ms) = Miniscript::<String, miniscript::Segwitv0>::from_str_insane(&m.to_string()) {
+                eprintln!("ITER {} Miniscript<String,Segwitv0> {}", irow.len(), ms);
                 irow.push(ms_row(&ms));
             }
         }
@@ -276,16 +289,19 @@ pub fn run(args: &[String]) {
     for i in 0..40u32 {
         let mut ctr = 0;
         let p = gen_policy(&mut r, 1 + i % 4, &mut ctr);
+        eprintln!("ITER {} concrete::Policy<String> {}", irow.len(), pdesc(&p).chars().take(400).collect::<String>());
         irow.push(pol_row(&p));
     }
     // wide and deep by value: 40 children; a chain 40 deep
     let mut ctr = 0;
     let wide = Policy::And((0..40).map(|_| Arc::new(gen_policy(&mut r, 1, &mut ctr))).collect());
+    eprintln!("ITER {} concrete::Policy<String> And of 40 generated children", irow.len());
     irow.push(pol_row(&wide));
     let mut deep = Policy::Key("Z".to_string());
     for i in 0..40 {
         deep = if i % 2 == 0 { Policy::And(vec![Arc::new(deep)]) } else { Policy::Or(vec![(1, Arc::new(deep)), (1, Arc::new(Policy::Trivial))]) };
     }
+    eprintln!("ITER {} concrete::Policy<String> And[Or[..]] chain 40 deep", irow.len());
     irow.push(pol_row(&deep));
     chunk(&mut o, "iter_rows", "(rtree * (list N * list (N * N * list N) * list (N * N * list N) * list (N * N) * N))", &irow);
 
@@ -320,7 +336,12 @@ pub fn run(args: &[String]) {
         let bits = r.next();
         shapes.push(chain(d, &move |j| (bits >> (j % 64)) & 1 == 1, bottom));
     }
-    let trow: Vec<String> = shapes.iter().map(tap_row).collect();
+    let mut trow: Vec<String> = Vec::new();
+    for (i, s) in shapes.iter().enumerate() {
+        let (row, text) = tap_row(s);
+        eprintln!("TAP {} {}", i, text);
+        trow.push(row);
+    }
     chunk(&mut o, "tap_rows", "(tshape * (N * list N))", &trow);
     print!("{}", o);
     eprintln!("ITERS iter={} (miniscript {}, policy {}) tap={}", irow.len(), n_ms, irow.len() - n_ms, trow.len());
